@@ -218,6 +218,10 @@ def limit_cases(rng):
             c.append(([], free + b'\x61' * n))
             c.append(([], b'\x00\x63' + free + b'\x68' + b'\x61' * (n - 2) + b'\x51'))
         c.append(([], b'\x4f\x00' + b''.join(push(b'k') for _ in range(20)) + b'\x01\x14\xae' + b'\x61' * (n - 21)))
+    # hash opcodes on items whose length sits at the padding boundaries of the compression functions
+    for n in (0, 1, 54, 55, 56, 57, 63, 64, 65, 118, 119, 120, 128, 183, 247, 311, 503, 520):
+        for h in HASH_OPS:
+            c.append(([bytes([(7 * n + k) % 256 for k in range(n)])], bytes([h])))
     # key / signature counts outside 0..20, shallow and deep stacks
     for cnt in (-1, -3, -21, 21, 255):
         for depth in (0, 1, 3, 25):
